@@ -910,6 +910,15 @@ func cmdBare1(args []string) {
 			is := RandInit(r, k/256, k%256)
 			is.Pend = []int{}
 			is.Bare = true
+			if k/256 == 2 && (k&0xc7 == 0x40 || k&0xc7 == 0x41 || k&0xe4 == 0xa0) || k == 0xd3 || k == 0xdb || r.Intn(3) == 0 {
+				// port instructions (and a third of the others) with the bundled array port device, attached directly
+				is.IO = IODesc{Kind: "dumb", Len: []int{256, 256, 0, 1, 128, 255}[r.Intn(6)]}
+				is.IOCells = dedupe([][2]int{{r.Intn(256), r.Intn(256)}, {is.R[3], 1 + r.Intn(255)}, {is.R[0], 1 + r.Intn(255)}})
+			}
+			is.BareIO = is.IO.Kind == "dumb"
+			if is.BareIO && is.IO.Len > 0 && r.Intn(2) == 0 { // the port register on the device's last port / just beyond it
+				is.R[3] = (is.IO.Len - 1 + r.Intn(2)) & 255
+			}
 			L := 65536
 			switch i % 4 {
 			case 0, 1:
@@ -972,6 +981,13 @@ func cmdBare1(args []string) {
 					}
 					if cells[j][0] == (pc+off+1)&0xffff {
 						cells[j][1] = v >> 8
+					}
+				}
+			}
+			if is.BareIO && is.IO.Len > 0 && (k == 0xd3 || k == 0xdb) && r.Intn(2) == 0 { // OUT (n),A / IN A,(n): n likewise
+				for j := range cells {
+					if cells[j][0] == (pc+1)&0xffff {
+						cells[j][1] = (is.IO.Len - 1 + r.Intn(2)) & 255
 					}
 				}
 			}
